@@ -1379,7 +1379,7 @@ resolve_property!(
     oracle_c08,
     60_000,
     1_000_000,
-    "first a deterministic sweep - each of 34 upstream fault kinds (silence, delays around 5 s and up to 70 s, garbage, truncation, wrong ID/QR/opcode/question, TC, error rcodes, empty, lame/unresolvable/self/fake-deeper/glue-less-alias-name-server referrals, referrals in the answer section, alias loops (through the question name, self-loops, lassos) and streams, TTL 0, oversize, TCP refuse/black hole/reset/early EOF/bad length) alone at each of 8 exchange positions of 6 universes in recursive and forwarding mode (3264 runs) - then random runs: random subsets of those kinds at random rates on every exchange incl. nested name-server lookups, plus datagram drop/duplicate/corrupt/truncate, connect refuse/black-hole, failures to open a socket, latencies up to 70 s. Oracle: resolve() completes, <= 60 s virtual, every UDP socket and TCP attempt lives <= 5 s, no panic, no stall, every returned record was supplied by local data or by the bytes of a message that reached the resolver. Non-trivial = at least one exchange and at least one fault fired; distinct = distinct (exchange sequence, faults, result classes)",
+    "first a deterministic sweep - each of 35 upstream fault kinds (silence, delays around 5 s and up to 70 s, garbage, compression-pointer games, truncation, wrong ID/QR/opcode/question, TC, error rcodes, empty, lame/unresolvable/self/fake-deeper/glue-less-alias-name-server referrals, referrals in the answer section, alias loops (through the question name, self-loops, lassos) and streams, TTL 0, oversize, TCP refuse/black hole/reset/early EOF/bad length) alone at each of 8 exchange positions of 6 universes in recursive and forwarding mode (3360 runs) - then random runs: random subsets of those kinds at random rates on every exchange incl. nested name-server lookups, plus datagram drop/duplicate/corrupt/truncate, connect refuse/black-hole, failures to open a socket, latencies up to 70 s. Oracle: resolve() completes, <= 60 s virtual, every UDP socket and TCP attempt lives <= 5 s, no panic, no stall, every returned record was supplied by local data or by the bytes of a message that reached the resolver. Non-trivial = at least one exchange and at least one fault fired; distinct = distinct (exchange sequence, faults, result classes)",
     [
         "while faults flow only termination, time bounds, panic-freedom and provenance are judged - any answer or error is acceptable",
         "a spin that makes no virtual-time progress is detected as a stall after 1,000,000 clock reads at one instant (deterministic), backed by a 30 s real-time watchdog",
